@@ -2,6 +2,7 @@ package props
 
 import (
 	"fmt"
+	"strings"
 	"testing"
 
 	"verifsim/gen"
@@ -115,6 +116,18 @@ func (c06) build(src *gen.Source) *Case {
 		}
 		c.Reader.FaultAt = src.Intn(len(c.Src) + 1)
 		c.Reader.FaultKind = src.Pick([]string{"persistent", "transient"})
+		if src.Chance(1, 2) {
+			// bias: right behind an operator character, where the lexer is in the middle of a look-ahead
+			var ks []int
+			for i := 0; i < len(c.Src); i++ {
+				if strings.IndexByte("&;|<>()$`", c.Src[i]) >= 0 {
+					ks = append(ks, i+1)
+				}
+			}
+			if len(ks) > 0 {
+				c.Reader.FaultAt = ks[src.Intn(len(ks))]
+			}
+		}
 		// align to a rune start
 		for c.Reader.FaultAt > 0 && c.Reader.FaultAt < len(c.Src) && c.Src[c.Reader.FaultAt]&0xC0 == 0x80 {
 			c.Reader.FaultAt--
